@@ -11,20 +11,16 @@ Open:
 F-c18-str-no-columns-assertion        str() of a 2-d array with no columns: AssertionError out of matrepr
 F-c18-dok-partial-index-lists         DOK index lists / masks for fewer than all dimensions: NotImplementedError where NumPy raises IndexError
 F-c18-einsum-operand-rank-unchecked   einsum accepts an operand with more dimensions than its subscripts
-F-c18-gcxs-ctor-contents-unchecked    the residual of F-c18-gcxs-ctor-unvalidated: lengths and the ends of indptr are checked (5753560), the
-                                      CONTENTS are not: column indices outside the shape, decreasing index pointers.  Region: the contract's
-                                      reason is exactly one of these two (so lengths, indptr length and its two ends are consistent) and the call returned.
+F-c18-gcxs-ctor-0d-unchecked          GCXS((data, indices, indptr), shape=()): every test on the three arrays sits under len(shape) >= 1.  Region: the contract's
+                                      reason is "0-d indices" (shape (), indices not of shape (0, len(data))) and the call returned.  Props/C18: ExcludedZeroDim.
 
 Retired (repaired in /repo; each witness is a must-pass case of c18.retired_witnesses, and the generators still produce the region):
 F-c18-reshape-several-unknown, F-c18-reshape-unknown-with-zero (999f0e4), F-c18-coo-ctor-0d-unchecked (22a856d), F-c18-gcxs-ctor-unvalidated
-(5753560), F-c18-gcxs-lowrank-nbytes (f8a1188), F-c18-coo-only-function-gcxs (9d10515), F-c18-diagonal-equal-axes (b6c8f54),
+(5753560), F-c18-gcxs-ctor-contents-unchecked (748e5d3), F-c18-gcxs-lowrank-nbytes (f8a1188), F-c18-coo-only-function-gcxs (9d10515), F-c18-diagonal-equal-axes (b6c8f54),
 F-c18-flip-repeated-axis (e21e508), F-c18-squeeze-repeated-axis (eaaac81), F-c18-moveaxis-repeated-axis (55412b6),
 F-c18-sort-1d-axis-ignored (e2d0b75), F-c18-tensordot-empty-duplicate-axes (5b38ef4), F-c18-slice-step-zero-zerodivision (e1153be).
 """
 from __future__ import annotations
-
-GCXS_CONTENT_REASONS = ("indices out of range", "indptr decreasing")
-
 
 def classify(name, case, msg):
     fmts = case.get("formats") or []
@@ -43,8 +39,8 @@ def classify(name, case, msg):
 
     # ---- accepted what NumPy / the contract rejects ----------------------------------------------------------------
     if msg.startswith("accepted:"):
-        if name == "GCXS(triple,shape,ca)" and kind == "ctor-bad" and case.get("np_msg") in GCXS_CONTENT_REASONS:
-            return "F-c18-gcxs-ctor-contents-unchecked"
+        if name == "GCXS(triple,shape,ca)" and kind == "ctor-bad" and case.get("np_msg") == "0-d indices" and (case.get("kwargs") or {}).get("shape") == []:
+            return "F-c18-gcxs-ctor-0d-unchecked"
         if name == "sparse.einsum" and "operand has more dimensions than subscripts" in msg:
             return "F-c18-einsum-operand-rank-unchecked"
     return None
